@@ -31,3 +31,18 @@ def validate(ctx, module, traces, tag, timeout_s=900):
         drift = [t for t in rest if t["id"] in ok2]
         rejected = [t for t in rest if t["id"] not in ok2]
     return ok, drift, rejected
+
+
+def validate_lax(ctx, module, traces, tag, timeout_s=900):
+    """observables only (traces in which some calls lie outside the trace model, so that the internal steps cannot be bound)"""
+    for n, t in enumerate(traces):
+        t["id"] = n + 1
+    os.makedirs(os.path.join(core.BUILD, "traces"), exist_ok=True)
+    path = os.path.join(core.BUILD, "traces", "%s_%s_lax.json" % (ctx.pid, tag))
+    with open(path, "w") as f:
+        json.dump({"traces": traces}, f)
+    res = tlc.run(module, module + "_lax", tag="%s_%s_lax" % (ctx.pid, tag), workers=8, timeout_s=timeout_s,
+                  env={"TRACE_FILE": path}, require_emit=False)
+    ctx.add_tlc("%s observables only (%d recorded traces)" % (module, len(traces)), res)
+    ok = set(o["accept"] for o in res.emitted if "accept" in o)
+    return [t for t in traces if t["id"] in ok], [t for t in traces if t["id"] not in ok]
